@@ -88,7 +88,12 @@ OWN.append(own("brClosed", '''  simp [execI] at hx
     · refine ⟨rfl, b2, by simpa [Thread.br, hc] using hb2, Local.weaken ?_ hle2⟩
       fin_local'''))
 OWN.append(osingle("incRunning", "⟨hmu, hnc⟩", HM))
-OWN.append(osingle("decRunning", "⟨hmu, hheld⟩", HM))
+HCL = """  have hcl : sh.closed = false := by
+    cases hc : sh.closed with
+    | false => rfl
+    | true => have h0 := g2 hc; have h13 := l13; omega
+"""
+OWN.append(osingle("decRunning", "⟨hmu, hheld⟩", HM + HCL))
 OWN.append(obranch("brZero", "sh.running = 0"))
 OWN.append(obranch("brPos", "sh.running > 0"))
 OWN.append(osingle("jmpBack", "hk"))
